@@ -1159,7 +1159,11 @@ def gen_result(ck):
     rng = ck.rng
     bases = []
     for _ in range(ck.n(5, 12)):
-        bases.append({"kind": "verif", "spec": gen_scheme.rand_spec(rng, allow_full=False), "max_nfev": rng.choice([2, 3])})
+        # dataset labels name the files of a saved result: plain d1, d2, ... and labels that differ only after their last
+        # dot / are prefixes of one another (seeded change C17-2: `with_suffix` made sample.470nm and sample.530nm share a file)
+        dl = rng.choice([None, None, ["sample.470nm", "sample.530nm", "sample", "sample.470nm.b"], ["a", "a.b", "a.c", "ab"]])
+        bases.append({"kind": "verif", "spec": gen_scheme.rand_spec(rng, allow_full=False, dataset_labels=dl, force={"n_datasets": rng.choice([2, 3, 4])} if dl else None),
+                      "max_nfev": rng.choice([2, 3])})
     for _ in range(ck.n(2, 6)):
         bases.append({"kind": "builtin", "spec": G.rand_builtin(rng, min_items=rng.random() < 0.5), "max_nfev": 2, "raise": False})
     for b in bases:
@@ -1246,7 +1250,10 @@ def check_scheme(ck, case, batch):
                     same = (u == v) or (isinstance(u, float) and isinstance(v, float) and u != u and v != v)
                     if not same:
                         small = isinstance(u, float) and isinstance(v, float) and abs(u - v) <= 1e-12 * abs(u)
-                        ck.violation("csv-float-roundtrip" if small else "scheme-parameters-differ", f"parameters.{l}.{att}: {u!r} vs {v!r}", case)
+                        # xlsx: openpyxl writes numbers with 16 significant digits (recorded under C16 as xlsx-float-16-digits)
+                        is_xlsx = str(case.get("where", {}).get("parameters", "")).endswith(".xlsx")
+                        ck.violation("xlsx-float-16-digits" if (small and is_xlsx) else "scheme-parameters-differ",
+                                     f"parameters.{l}.{att}: {u!r} vs {v!r}", case)
         if list(scheme.data.keys()) != list(loaded.data.keys()):
             ck.violation("scheme-data-differs", f"data labels {list(scheme.data)} vs {list(loaded.data)}", case)
         else:
